@@ -4,6 +4,8 @@ import atexit, base64, hashlib, json, os, random, re, shutil, signal, subprocess
 
 VERIF = os.path.dirname(os.path.dirname(os.path.abspath(__file__)))
 REPO = os.environ.get("VERIF_REPO", "/repo")
+# where evidence/ and replays/ are written: /verif itself, except for trial runs against seeded changes (bin/mutant-wt)
+OUT = os.environ.get("VERIF_OUT", VERIF)
 SCRATCH_ROOT = os.environ.get("VERIF_SCRATCH_ROOT", "/var/tmp/verif-scratch")
 NCPU = max(1, min(16, os.cpu_count() or 1))
 
@@ -365,8 +367,8 @@ class Verdict:
         ev = {"property_id": self.pid, "tier": self.tier, "seed": self.seed, "level": self.level,
               "coverage": self.cov, "assumptions": self.assumptions, "wall_s": round(wall, 2),
               "violations": len(self.violations)}
-        os.makedirs(os.path.join(VERIF, "evidence"), exist_ok=True)
-        with open(os.path.join(VERIF, "evidence", self.pid + ".json"), "w") as f:
+        os.makedirs(os.path.join(OUT, "evidence"), exist_ok=True)
+        with open(os.path.join(OUT, "evidence", self.pid + ".json"), "w") as f:
             json.dump(ev, f, indent=1, ensure_ascii=False, default=str)
             f.write("\n")
         for f in self.known:
@@ -383,7 +385,7 @@ class Verdict:
                 for k, n in cnt.most_common():
                     f.write("%6d %s\n" % (n, k))
         if self.violations:
-            rdir = os.path.join(VERIF, "replays", self.pid)
+            rdir = os.path.join(OUT, "replays", self.pid)
             os.makedirs(rdir, exist_ok=True)
             seen = set()
             for sig, rep in self.violations:
